@@ -23,7 +23,7 @@ func run(c *vf.Ctx) {
 		c.Fatalf("%v", err)
 	}
 	c.Rule("names: every position 0..15 x every byte value 0..255 on backgrounds 'A', 0x00 and ' ' (16-byte names), every length 0..16 with counter content and with trailing spaces, all two-position pairs over {00,20,2A,2E,FF}, positions (0,1) and (14,15) (thorough: every adjacent pair and (0,15)) x all 65536 value pairs; " +
-		"scopes: 0..3 labels from all strings of length 1..2 (thorough 3) over {a,9,-} that are valid labels, plus label lengths 1/62/63 and totals up to the 255-octet name limit; " +
+		"scopes: 0..3 labels from all strings of length 1..2 (thorough 3) over {a,9,-} that are valid labels, plus every label length 1..63 (letters inside and outside A..P) and totals up to the 255-octet name limit; " +
 		"packets: TransactionID and Flags over Words(16), section sizes {0,1,2}^4 x rotations through the name set, type/class Words(16) and TTL Words(32) in every section, RDATA lengths {0,4,6,255,256,65535}(+thorough) per RR section and position. " +
 		"distinct = distinct (function,input) pairs / wire images reaching a comparison")
 	c.Assume("RFC 1001 §14.1: names shorter than 16 bytes are space padded, so equality of names is modulo trailing spaces; names starting with '*' may be refused (RFC 1001 §5.2) but never mis-encoded")
@@ -123,6 +123,14 @@ func scopeLattice(c *vf.Ctx) [][]string {
 		[]string{long(63, 'a'), long(63, 'b'), long(63, 'c'), long(28, 'd')},
 		[]string{"a-b", "Z9", "x"},
 	)
+	// every label length 1..63, once with characters outside and once inside the half-ASCII range 'A'..'P'
+	// (a 32-character scope label is as long as the encoded NetBIOS label in front of it and must not be taken for it)
+	for n := 1; n <= 63; n++ {
+		out = append(out, []string{long(n, 'z')}, []string{long(n, 'B')})
+	}
+	for _, n := range []int{31, 32, 33} {
+		out = append(out, []string{"x", long(n, 'q')}, []string{long(n, 'C'), long(n, 'q')})
+	}
 	return out
 }
 
